@@ -61,7 +61,7 @@ int __real_inotify_rm_watch(int, int);
 #define MAXREACT 64
 #define MAXOBJ 256
 
-struct op { char kind[3]; char a[32], b[32]; int slot; };
+struct op { char kind[3]; char a[272], b[272]; int slot; };
 struct oplist { struct op op[MAXOPS]; int n; };
 struct slotdef { int defined; char path[32]; uint32_t mask; };
 struct react { int slot, occ; struct oplist ops; };
